@@ -197,7 +197,10 @@ class MessageBase(ctypes.Structure, metaclass=MessageMeta):
         Args:
             m: Message structure to copy
         """
-        return cls.from_buffer_copy(m)
+        # called through a base class (MessageHeader.copy(timecode_header),
+        # MessageData.copy(msg.data)) the copy is still one of m's own class
+        klass = type(m) if isinstance(m, cls) else cls
+        return klass.from_buffer_copy(m)
 
     def __str__(self) -> str:
         return self.pretty_print()
